@@ -29,7 +29,7 @@ Definition K_SETTLE : N := 5. Definition K_SLEEP : N := 6.  Definition K_RETRY :
 Definition K_KILL : N := 9.  Definition K_START : N := 10. Definition K_REVNOWAIT : N := 11. Definition K_WAKE : N := 12.
 Definition A_ACCEPT : N := 0. Definition A_WRONGKEY : N := 1. Definition A_BADSIG : N := 2. Definition A_SUBERR : N := 3.
 Definition A_APIERR : N := 4.
-Definition R_GOOD : N := 0.  Definition R_NOTEXT : N := 2. Definition R_NOTEXT_SLOTS : N := 5.
+Definition R_GOOD : N := 0.  Definition R_NOTEXT : N := 2. Definition R_NOTEXT_SLOTS : N := 5. Definition R_NOTEXT_EXPIRY : N := 6.
 Definition C_DOWN : N := 20.
 
 (* a violation: (check code, step index, tower, locator) *)
@@ -94,7 +94,7 @@ Definition max_expiry (d : db) (t : N) : N :=
 Definition tower_slots (d : db) (t : N) : N :=
   match find_pk CS d T_towers [t] with Some r => col r C_towers_available_slots | None => 0 end.
 Definition row_in (r : row) (rows : list row) : bool := existsb (key_eqb r) rows.
-Definition good_sig_class (c : N) : bool := N.eqb c R_GOOD || N.eqb c R_NOTEXT || N.eqb c R_NOTEXT_SLOTS.
+Definition good_sig_class (c : N) : bool := N.eqb c R_GOOD || N.eqb c R_NOTEXT || N.eqb c R_NOTEXT_SLOTS || N.eqb c R_NOTEXT_EXPIRY.
 
 (* does a receipt (slots, expiry) strictly extend what database d knows of tower t *)
 Definition extends (d : db) (t slots expiry : N) : bool :=
